@@ -105,6 +105,12 @@ def classify_guard(comp: Competition, u: UpdateSite, g: Term, pol: bool, weight:
             return "outer-cost-" + ("strict" if op == "<" else "nonstrict")
         if weight is not None and op in ("<", "<=") and l == weight and r == hq and comp.policy == "min":
             return "weight-prefilter"
+    # `if isnan(w): continue`: a NaN weight never wins a comparison anyway (every `<` with it is false)
+    if weight is not None and t[0] == "not" and t[1][0] == "call" and t[1][1] in (("mod", "numpy.isnan"), ("mod", "math.isnan")) \
+            and t[1][2] == (weight,):
+        return "weight-prefilter(nan)"
+    if t[0] == "cmp":
+        op, l, r = t[1], t[2], t[3]
         # `if removed_so_far == n_nodes: break` before the scan: once every node has left the queue all of them are BLACK
         # and the scan is a no-op.  Exact when the counter starts at 0, is incremented by exactly 1 per removal,
         # unconditionally, is compared with the number of nodes of the graph, and the scan skips removed nodes anyway.
